@@ -35,7 +35,7 @@ var emptyFrameSize = []byte{0, 0, 0, 0}
 // to grow unbounded.
 func NewTMemoryOutputBuffer(size uint) *TMemoryOutputBuffer {
 	buffer := &TMemoryOutputBuffer{size, thrift.NewTMemoryBuffer()}
-	buffer.Write(emptyFrameSize)
+	buffer.TMemoryBuffer.Write(emptyFrameSize)
 	return buffer
 }
 
@@ -80,7 +80,9 @@ func (f *TMemoryOutputBuffer) WriteByte(c byte) error {
 // Reset clears the buffer
 func (f *TMemoryOutputBuffer) Reset() {
 	f.TMemoryBuffer.Reset()
-	f.Write(emptyFrameSize)
+	// The frame size placeholder is written unchecked: with a limit below 4
+	// the checked Write would call Reset again and recurse forever.
+	f.TMemoryBuffer.Write(emptyFrameSize)
 }
 
 // Bytes retrieves the framed contents of the buffer.
